@@ -269,6 +269,23 @@ func (e *fnEnc) block(b *ssa.BasicBlock, entryGuard string) {
 			}
 		}
 		if li != nil {
+			preLoop := copyMap(e.cur)
+			keepMaps := func() {
+				// maps made by this function, not yet visible to any other function at the loop and not
+				// updated by the loop's own instructions, keep their contents through the loop-head havoc
+				for _, mk := range e.localMaps {
+					t, ok := e.val[mk]
+					if !ok || len(li.head.Instrs) == 0 || !e.mapUnescapedAt(mk, li.head.Instrs[0]) || e.loopUpdatesMap(li, mk) {
+						continue
+					}
+					mt := mk.Type().Underlying().(*types.Map)
+					for _, hk := range []HeapKey{e.S().MapHasKey(mt), e.S().MapValKey(mt)} {
+						if o, n := preLoop[hk.Name], e.cur[hk.Name]; o != "" && n != "" && o != n {
+							vc.def(fmt.Sprintf("(= (select %s %s) (select %s %s))", n, t, o, t))
+						}
+					}
+				}
+			}
 			if li.all {
 				e.havocSummary(nil, true)
 			} else {
@@ -281,6 +298,7 @@ func (e *fnEnc) block(b *ssa.BasicBlock, entryGuard string) {
 					e.havoc(k)
 				}
 			}
+			keepMaps()
 			// ghost call-site counters bumped inside the loop are havocked too (they only grow)
 			for _, site := range e.hitSitesIn(li) {
 				hk := hitsKey(site)
@@ -436,6 +454,14 @@ func (e *fnEnc) varAtIdx(name string, at *ssa.BasicBlock, upto int, from *ssa.Ba
 						T := in.X.Type().Underlying().(*types.Pointer).Elem()
 						return e.loadVia(in.X, T, heap), true
 					}
+					// the reference at the declaring identifier itself may still carry the zero value (the initial
+					// store has been lifted away): use the single value every other reference of the variable agrees on
+					if c, isConst := in.X.(*ssa.Const); isConst && in.Pos() == in.Object().Pos() && (c.Value == nil || c.IsNil()) {
+						if v := e.singleValueOf(in.Object(), at); v != nil {
+							return TV{e.term(v), e.S().SortOf(v.Type()), v.Type()}, true
+						}
+						continue // ambiguous: do not guess (the name stays unresolved unless a nearer definition exists)
+					}
 					return TV{e.term(in.X), e.S().SortOf(in.X.Type()), in.X.Type()}, true
 				}
 			case *ssa.Alloc:
@@ -539,7 +565,13 @@ func (e *fnEnc) loopObligations(li *loopInfo, from *ssa.BasicBlock, guard, kind 
 			env.prevHeap = hh
 			env.lookupPrev = func(name string) (TV, bool) { return e.varAt(name, li.head, nil, hh) }
 			cur := e.cur
-			env.lookup = func(name string) (TV, bool) { return e.varAtIdx(name, from, len(from.Instrs), nil, cur) }
+			env.lookup = func(name string) (TV, bool) {
+				tv, ok := e.varAtIdx(name, from, len(from.Instrs), nil, cur)
+				if os.Getenv("LHV_DEBUG") != "" {
+					fmt.Fprintf(os.Stderr, "step lookup %s from=%d -> %q %v\n", name, from.Index, tv.T, ok)
+				}
+				return tv, ok
+			}
 			f, err := env.Bool(cl.Expr)
 			if err != nil {
 				e.fail("loop %d step %q: %v", li.ordinal, cl.Src, err)
@@ -761,4 +793,53 @@ func (e *fnEnc) hitSitesIn(li *loopInfo) []string {
 		}
 	}
 	return sortedKeys(found)
+}
+
+// loopUpdatesMap: some instruction of the loop stores into or deletes from the map made by mk.
+func (e *fnEnc) loopUpdatesMap(li *loopInfo, mk *ssa.MakeMap) bool {
+	if mk.Referrers() == nil {
+		return true
+	}
+	for _, r := range *mk.Referrers() {
+		if !li.body[r.Block()] {
+			continue
+		}
+		switch u := r.(type) {
+		case *ssa.MapUpdate:
+			return true
+		case *ssa.Call:
+			if b, ok := u.Call.Value.(*ssa.Builtin); ok && b.Name() == "delete" {
+				return true
+			}
+		}
+	}
+	return false
+}
+
+// singleValueOf: the one SSA value that all non-declaring debug references of variable obj carry, provided its
+// definition dominates block at (a variable assigned exactly once, after its declaration).
+func (e *fnEnc) singleValueOf(obj types.Object, at *ssa.BasicBlock) ssa.Value {
+	var val ssa.Value
+	for _, b := range e.fn.Blocks {
+		for _, in := range b.Instrs {
+			d, ok := in.(*ssa.DebugRef)
+			if !ok || d.Object() != obj || d.IsAddr || d.Pos() == obj.Pos() {
+				continue
+			}
+			if val == nil {
+				val = d.X
+			} else if val != d.X {
+				return nil
+			}
+		}
+	}
+	if val == nil {
+		return nil
+	}
+	if in, ok := val.(ssa.Instruction); ok {
+		if in.Block() != at && !in.Block().Dominates(at) {
+			return nil
+		}
+	}
+	return val
 }
